@@ -142,6 +142,10 @@ def _hypot(a, b, where):
 
 
 _NOT_A_CONDITION = object()
+# element-wise numpy functions of one argument beyond symx.UNARY, and the functions whose out= the evaluator (symx.Env.call / this class) writes
+_UNARY_MORE = {"negative": lambda x: -x, "positive": lambda x: x, "reciprocal": lambda x: 1 / x}
+_OUT_KNOWN = set(symx.UNARY) | set(_UNARY_MORE) | {"deg2rad", "radians", "rad2deg", "degrees", "arctan2", "atan2", "multiply", "add", "subtract",
+                                                   "divide", "power", "mod", "fmod", "minimum", "maximum", "fmin", "fmax", "clip", "hypot"}
 _COMPARE_UFUNCS = {"less": ast.Lt, "less_equal": ast.LtE, "greater": ast.Gt, "greater_equal": ast.GtE, "equal": ast.Eq, "not_equal": ast.NotEq}
 
 
@@ -210,6 +214,22 @@ class _Env(symx.Env):
         r = self._condition_idiom(c)
         if r is not _NOT_A_CONDITION:
             return r
+        npf = _np_full(self, f)
+        if npf and npf == "numpy." + nm and nm in _UNARY_MORE and len(c.args) in (1, 2) and all(k.arg == "out" for k in c.keywords) \
+                and not any(isinstance(a, ast.Starred) for a in c.args):
+            # numpy.negative / positive / reciprocal (x[, out]): the documented element-wise meaning; with out= the array handed over is
+            # updated in place and is also what the call returns
+            x = self.ev(c.args[0])
+            if not (isinstance(x, (tuple, list)) or symx._is_expr(x)):
+                raise symx.Unsupported("symx: `%s` of a non-numeric value at %s" % (nm, self.where(c)))
+            r = symx._map(_UNARY_MORE[nm], x)
+            out = c.args[1] if len(c.args) == 2 else kwarg(c, "out")
+            if out is not None:
+                self.assign(out, r, c)
+            return r
+        if npf and npf.startswith("numpy.") and kwarg(c, "out") is not None and kwarg(c, "where") is None and nm not in _OUT_KNOWN:
+            # a numpy function this evaluator has no meaning for, writing its result into an array: the array must not keep its old term
+            raise symx.Unsupported("symx: `%s` with out= at %s" % (nm, self.where(c)))
         w = kwarg(c, "where")
         if w is not None and _np_full(self, f):
             return self._masked_ufunc(c, w)
@@ -2147,7 +2167,11 @@ def _shiftra_binding(chk, repo, fi, sr):
 
 
 def _nonempty_cond(env, t):
-    """the element-wise condition whose being true somewhere the test `t` asks for (w.size > 0, len(w) > 0, mask.any(), np.any(mask), ...), or None"""
+    """the element-wise condition whose being true somewhere the test `t` asks for (w.size > 0, len(w) > 0, mask.any(), np.any(mask),
+    not (w.size == 0), not w.size == 0, ...), or None"""
+    neg = False
+    while isinstance(t, ast.UnaryOp) and isinstance(t.op, ast.Not):
+        neg, t = not neg, t.operand
     x = None
     if isinstance(t, ast.Compare) and len(t.ops) == 1:
         l, op, r = t.left, t.ops[0], t.comparators[0]
@@ -2155,10 +2179,17 @@ def _nonempty_cond(env, t):
             l, r = r, l
             op = {ast.Lt: ast.Gt, ast.LtE: ast.GtE, ast.Gt: ast.Lt, ast.GtE: ast.LtE}.get(type(op), type(op))()
         n = const_value(r)
+        if isinstance(n, bool) or not isinstance(n, (int, float)):
+            return None
+        # a count is a non-negative integer: count > 0, != 0, >= 1 say `some element`; count == 0, <= 0, < 1 say `none`
         if (isinstance(op, (ast.Gt, ast.NotEq)) and n == 0) or (isinstance(op, ast.GtE) and n == 1):
             t = l
+        elif (isinstance(op, (ast.Eq, ast.LtE)) and n == 0) or (isinstance(op, ast.Lt) and n == 1):
+            neg, t = not neg, l
         else:
             return None
+    if neg:
+        return None             # the test asks for `no element selected`
     if isinstance(t, ast.Attribute) and t.attr == "size":
         x = t.value
     elif isinstance(t, ast.Call) and call_name(t) in ("len", "count_nonzero") and len(t.args) == 1:
@@ -2175,6 +2206,42 @@ def _nonempty_cond(env, t):
     except AnalysisError:
         return None
     return v.cond if isinstance(v, symx.Mask) else None
+
+
+_LOOP_EXITS = (ast.Break, ast.Continue, ast.Return, ast.While, ast.For, ast.Raise, ast.Try, ast.With, ast.FunctionDef, ast.Lambda,
+               ast.Yield, ast.YieldFrom)
+
+
+def _straight(stmts):
+    return not any(isinstance(x, _LOOP_EXITS) for s_ in stmts for x in ast.walk(s_))
+
+
+def _test_first(st):
+    """the loop  `while True: S; if T: break; R`  (the only way out is that one top-level `if`; S and R are straight-line code) performs
+    the same sequence of statements as  `S; while not T: R; S`  -- the form with the test at the loop head, which is what the fold analysis
+    steps through.  Accepted spellings of the exit: `if T: break [else: E]` and `if T: A else: break`.  -> list of statements, or None
+    when `st` is not such a loop."""
+    if not isinstance(st, ast.While) or st.orelse or const_value(st.test) not in (True, 1) or isinstance(const_value(st.test), float):
+        return None
+    for i, x in enumerate(st.body):
+        if isinstance(x, ast.If) and any(isinstance(y, ast.Break) for y in ast.walk(x)):
+            break
+    else:
+        return None
+    pre, post = st.body[:i], st.body[i + 1:]
+    is_break = lambda b: len(b) == 1 and isinstance(b[0], ast.Break)
+    if is_break(x.body):
+        test, rest = ast.UnaryOp(op=ast.Not(), operand=x.test), list(x.orelse) + post
+    elif is_break(x.orelse):
+        test, rest = x.test, list(x.body) + post
+    else:
+        return None
+    if not _straight(pre) or not _straight(rest) or not rest:
+        return None
+    loop = ast.While(test=ast.copy_location(test, x.test), body=rest + pre, orelse=[])
+    ast.copy_location(loop, st)
+    ast.fix_missing_locations(loop)
+    return pre + [loop]
 
 
 def _fold_info(repo):
@@ -2241,7 +2308,10 @@ def _analyse_fold(repo):
     found = {}
     unrec = []
     nloop = 0
+    body = []
     for st in fi.node.body:
+        body.extend(_test_first(st) or [st])
+    for st in body:
         if not isinstance(st, ast.While):
             if any(isinstance(x, ast.While) for x in ast.walk(st)):
                 unrec.append("nested loop at line %s" % st.lineno)
